@@ -412,6 +412,8 @@ func runConnCase(c connCase) (res connResult) {
 			if s.F {
 				f.Headers[":method"] = []string{"GET"}
 				f.CFHeader.Flags = spdy.ControlFlagFin
+			} else if s.X >= 0 { // declared content-length of a request whose body follows in DATA frames
+				f.Headers["content-length"] = []string{strconv.FormatInt(s.X, 10)}
 			}
 			werr = cn.send(f)
 		case "synbad":
